@@ -48,7 +48,7 @@ import (
 	"verif.local/h/dagshape"
 )
 
-var c14QuietTimeout = 90 * time.Second
+var c14QuietTimeout = 60 * time.Second
 
 const (
 	c14PTdid = "application/did+json"
@@ -80,6 +80,15 @@ func (b c14Beh) at(n int) string {
 	return "err"
 }
 
+// calls is the number of calls the first incarnation makes when nothing interferes: up to and including the first
+// completion / fatal answer, at most the budget.
+func (b c14Beh) calls() int {
+	if b.End != "ok" && b.End != "fatal" {
+		return maxRetries
+	}
+	return min(b.Fail+b.Inc+1, maxRetries)
+}
+
 type c14Sub struct {
 	Persistent  bool     `json:"p"`
 	Type        string   `json:"t"`             // event type the filter selects (every real subscriber selects exactly one)
@@ -90,6 +99,8 @@ type c14Sub struct {
 	// its behaviours are clamped to at most c14SlowCalls unsuccessful calls (the full budget would take seconds).
 	Slow bool `json:"slow,omitempty"`
 }
+
+const c14Restarts = 2 // every run has three incarnations
 
 const (
 	c14SlowDelay = 5 * time.Microsecond
@@ -139,6 +150,7 @@ type c14Stop struct {
 	Pos      uint32 `json:"pos"`  // selects an admitting op
 	Call     int    `json:"call"` // call number used by one of the in-receiver stops
 	Resubmit bool   `json:"re"`   // precommit: the failed op is submitted again after the restart
+	PutN     int    `json:"putn,omitempty"` // put fault: this many consecutive Puts on the chosen subscriber's job shelf fail (0 = 1)
 }
 
 type c14Case struct {
@@ -152,7 +164,7 @@ type c14Case struct {
 }
 
 func c14GenBeh(t *rapid.T) c14Beh {
-	switch rapid.SampledFrom([]string{"ok", "ok", "ok", "ok", "fail", "fail", "inc", "inc", "mixed", "fatal", "fatal", "never", "late", "edge"}).Draw(t, "beh") {
+	switch rapid.SampledFrom([]string{"ok", "ok", "ok", "ok", "fail", "fail", "inc", "inc", "mixed", "fatal", "fatal", "never", "never", "late", "edge", "edge"}).Draw(t, "beh") {
 	case "fail":
 		return c14Beh{Fail: rapid.IntRange(1, 6).Draw(t, "f"), End: "ok"}
 	case "inc":
@@ -172,7 +184,7 @@ func c14GenBeh(t *rapid.T) c14Beh {
 }
 
 func c14Gen(t *rapid.T) c14Case {
-	c := c14Case{Shape: dagshape.Gen(t, dagshape.Params{MaxSegs: 6, MaxLen: 6, Kinds: 3, MaxPrevs: 3})}
+	c := c14Case{Shape: dagshape.Gen(t, dagshape.Params{MaxSegs: 5, MaxLen: 5, Kinds: 3, MaxPrevs: 3})}
 	c.DelayNs = rapid.SampledFrom([]int{1, 1, 2, 8}).Draw(t, "delay")
 	ns := rapid.IntRange(2, 3).Draw(t, "subs")
 	for i := 0; i < ns; i++ {
@@ -192,7 +204,7 @@ func c14Gen(t *rapid.T) c14Case {
 	if rapid.IntRange(0, 3).Draw(t, "sharing") > 0 { // three out of four histories reuse payload bytes across transactions
 		c.Share = rapid.SliceOfN(rapid.SampledFrom([]int{-1, -1, 0, 0, 1, 2}), 1, 7).Draw(t, "share")
 	}
-	nops := rapid.IntRange(1, 45).Draw(t, "nops")
+	nops := rapid.IntRange(1, 32).Draw(t, "nops")
 	for i := 0; i < nops; i++ {
 		k := rapid.SampledFrom([]string{"add", "add", "add", "add", "add", "addnp", "pay", "pay", "failwrite", "badpayload", "dup", "orphan"}).Draw(t, "k")
 		c.Ops = append(c.Ops, c14Op{K: k, Sel: rapid.Uint32Range(0, 1000).Draw(t, "sel"), Settle: rapid.IntRange(0, 3).Draw(t, "settle") == 0})
@@ -205,8 +217,11 @@ func c14Gen(t *rapid.T) c14Case {
 	for i := 0; i < nst; i++ {
 		c.Stops = append(c.Stops, c14Stop{
 			Pos:      rapid.Uint32Range(0, 1000).Draw(t, "pos"),
-			Call:     rapid.IntRange(1, 20).Draw(t, "call"),
+			// the call at which the in-receiver stop strikes = recorded attempts + 1: mass on the ends of the budget
+			// (call 20 = restart with 19 recorded attempts, the last one the loop may still make)
+			Call:     rapid.SampledFrom([]int{1, 2, 3, 19, 19, 20, 20, 20, 20, 21, 5, 8, 11, 14, 17}).Draw(t, "call"),
 			Resubmit: rapid.Bool().Draw(t, "resubmit"),
+			PutN:     rapid.IntRange(1, 2).Draw(t, "putn"),
 		})
 	}
 	return c
@@ -430,6 +445,7 @@ type c14Inc struct {
 	kv       *c14KV
 	nots     []Notifier
 	calls    map[c14Pair]int // calls in this incarnation
+	lastResp map[c14Pair]string
 	stopped  bool            // receivers entering now belong to "after the stop": they block, are not logged, and fail
 	snapDone chan struct{}
 	snapOnce sync.Once
@@ -457,6 +473,7 @@ type c14World struct {
 	ledger  []c14Call
 	calls   map[c14Pair]int
 	runaway bool
+	forced  map[c14Pair]bool // pairs whose receiver answers "done" from now on, to end a loop that broke the budget
 
 	incs []*c14Inc
 
@@ -472,6 +489,8 @@ type c14World struct {
 
 	// storage fault run: the pair whose notification was hit, and (write faults) the call whose outcome could not be
 	// recorded; faultRetry: the fault struck inside the retry loop, which the notifier then gives up until the next restart
+	mayFail    bool // the admitting op may return an error (put fault armed); refused tells that it did
+	refused    bool
 	faultPair  *c14Pair
 	unmarkedN  int
 	faultRetry bool
@@ -485,7 +504,7 @@ var (
 
 func c14NewWorld(x *h.Ctx, c c14Case, txs []vdTx, res *vdKeyResolver) *c14World {
 	w := &c14World{x: x, c: c, txs: txs, res: res, ctx: context.Background(), delay: time.Duration(c.DelayNs),
-		byRef: map[hash.SHA256Hash]int{}, calls: map[c14Pair]int{}, present: map[int]bool{}, adm: map[c14Ev]c14Adm{}, t0: time.Now()}
+		byRef: map[hash.SHA256Hash]int{}, calls: map[c14Pair]int{}, forced: map[c14Pair]bool{}, present: map[int]bool{}, adm: map[c14Ev]c14Adm{}, t0: time.Now()}
 	if w.delay < 1 {
 		w.delay = 1
 	}
@@ -540,9 +559,35 @@ func (w *c14World) receiver(inc *c14Inc, si int) ReceiverFn {
 		// a loop far beyond what any correct run can produce: stop waiting for it, the ledger checks name the cause.
 		// Slow subscribers answer at most c14SlowCalls times without a final answer, then once with it, plus once per
 		// restart (two restarts): more calls than that always include one after a completion / fatal answer.
-		if inc.calls[p] > maxRetries+4 || (known && w.c.Subs[si].Slow && n > c14SlowCalls+4) {
+		if known && w.c.Subs[si].Slow && n > c14SlowCalls+4 {
 			w.runaway = true
+			w.forced[p] = true
 		}
+		// The retry budget as an oracle, at the moment it is broken (waiting for the loop to end could take for ever).
+		// Budget: maxRetries calls recorded on the shelf. Over all incarnations a pair can legitimately see
+		//   maxRetries calls made while fewer than maxRetries attempts are recorded,
+		//   + 1 call whose outcome was never recorded (the one in flight at the crash, or the one hit by the injected write fault),
+		//   + 1 per restart (Run "retries all existing events" once, spent budget or not; a run has 2 restarts).
+		// Within one incarnation no call after the first may find maxRetries attempts recorded (an answer "fatal" records
+		// maxRetries+1: a call after that is reported by the ledger check under its own name).
+		if known {
+			over := ""
+			switch {
+			case n > maxRetries+1+c14Restarts:
+				over = fmt.Sprintf("call %d in total, at most %d can be owed (budget %d + 1 unrecorded + %d restarts)", n, maxRetries+1+c14Restarts, maxRetries, c14Restarts)
+			case w.c.Subs[si].Persistent && inc.calls[p] > 1 && ev.Retries >= maxRetries && inc.lastResp[p] != "fatal" && inc.lastResp[p] != "ok":
+				over = fmt.Sprintf("call %d of incarnation %d finds %d attempts recorded (budget %d)", inc.calls[p], inc.n, ev.Retries, maxRetries)
+			case !w.c.Subs[si].Persistent && inc.calls[p] > maxRetries:
+				over = fmt.Sprintf("call %d of incarnation %d to a non-persistent subscriber (budget %d)", inc.calls[p], inc.n, maxRetries)
+			}
+			if over != "" && !w.forced[p] {
+				w.x.Violate("retry-budget-exceeded", "[stop %s] subscriber %d, %s event of transaction %d: %s", w.kind, si, ev.Type, ti, over)
+				w.runaway = true
+				w.forced[p] = true
+			}
+			inc.lastResp[p] = resp
+		}
+		forced := w.forced[p]
 		if inc.ftrig != nil && inc.ftrig.pair == p && inc.ftrig.call == n {
 			// from here on the notifier's next read / write of this shelf fails once: for a write that is the recording
 			// of this very call's outcome, for a read the job read of the next attempt
@@ -562,6 +607,9 @@ func (w *c14World) receiver(inc *c14Inc, si int) ReceiverFn {
 			// the node stops here: after the receiver did its work, before the notifier records the outcome
 			inc.snapErr = inc.kv.snapshot(inc.snapPath)
 			inc.snapOnce.Do(func() { close(inc.snapDone) })
+		}
+		if forced {
+			return true, nil // ends the loop; the verdict is in
 		}
 		switch resp {
 		case "ok":
@@ -584,7 +632,7 @@ func (w *c14World) filter(si int) NotificationFilter {
 func (w *c14World) open(dir string) *c14Inc {
 	st, kv, err := c14OpenState(dir, w.res)
 	w.x.NoErr(err, "open state")
-	inc := &c14Inc{n: len(w.incs) + 1, dir: dir, st: st, kv: kv, calls: map[c14Pair]int{}, snapDone: make(chan struct{})}
+	inc := &c14Inc{n: len(w.incs) + 1, dir: dir, st: st, kv: kv, calls: map[c14Pair]int{}, lastResp: map[c14Pair]string{}, snapDone: make(chan struct{})}
 	w.incs = append(w.incs, inc)
 	for si, s := range w.c.Subs {
 		opts := []NotifierOption{WithRetryDelay(w.subDelay(si)), WithSelectionFilter(w.filter(si))}
@@ -687,9 +735,13 @@ func c14GoroutineID(g []byte) string {
 // It returns early when `also` holds or when a receiver saw a run-away retry loop (the oracle reports that).
 func (w *c14World) waitQuiet(what string, also func() bool) {
 	deadline := time.Now().Add(c14QuietTimeout)
+	w.mu.Lock()
+	callsAtStart := len(w.ledger)
+	w.mu.Unlock()
 	for i := 0; ; i++ {
 		w.mu.Lock()
 		ra := w.runaway
+		grown := len(w.ledger) - callsAtStart
 		w.mu.Unlock()
 		if ra || (also != nil && also()) {
 			return
@@ -699,6 +751,15 @@ func (w *c14World) waitQuiet(what string, also func() bool) {
 			return
 		}
 		if time.Now().After(deadline) {
+			if grown > 0 {
+				// loops that are still calling receivers after this long (the whole budget takes milliseconds) and stay
+				// below the per-pair bounds: retrying without an end
+				w.x.Violate("retry-budget-exceeded", "[stop %s] %s: retry loops still running after %v, %d receiver calls during the wait", w.kind, what, c14QuietTimeout, grown)
+				w.mu.Lock()
+				w.runaway = true
+				w.mu.Unlock()
+				return
+			}
 			w.x.Fatalf("no fixed point within %v (%s): %d goroutine(s), first:\n%s", c14QuietTimeout, what, len(gs), gs[0])
 		}
 		if i < 20 {
@@ -824,6 +885,16 @@ func (w *c14World) admit(inc *c14Inc, op c14Op, wantFail bool) {
 		}
 		return
 	}
+	if w.mayFail && err != nil {
+		// a fault on one Put inside the admission: refused as a whole. Nothing of it may be on the DAG.
+		w.refused = true
+		if op.K != "pay" {
+			if present, _ := inc.st.IsPresent(w.ctx, t.Tx.Ref()); present {
+				w.viol("refused-admission-left-transaction", "Add of transaction %d returned %v but the transaction is on the DAG", tx, err)
+			}
+		}
+		return
+	}
 	if err != nil {
 		w.x.Fatalf("valid op %s of transaction %d failed: %v", op.K, tx, err)
 	}
@@ -911,7 +982,8 @@ type c14StopPlan struct {
 	Pos      int    // index into Ops of an admitting op
 	Trig     *c14Trig
 	Resubmit bool
-	Fault    string // kind "fault": read-first | write-first | read-retry | write-retry (Trig names the pair and the call)
+	Fault    string // kind "fault": read-first | write-first | read-retry | write-retry | put-save (Trig names the pair and the call)
+	PutN     int
 }
 
 func (w *c14World) viol(sig, format string, args ...any) {
@@ -953,6 +1025,39 @@ func (w *c14World) execute(p c14StopPlan) {
 		w.waitQuiet("before storage fault", nil)
 		pair := p.Trig.pair
 		shelf := inc1.nots[pair.Sub].(*notifier).shelfName()
+		if p.Fault == "put-save" {
+			// one Put on this subscriber's job shelf fails inside the admission transaction (Save), the other Puts work.
+			// Either the admission is refused as a whole (and a re-offer admits and delivers to everybody), or it is
+			// admitted - then every selecting persistent subscriber is owed the event like for any admitted transaction.
+			inc1.kv.armPutFailure(shelf, max(p.PutN, 1))
+			w.mayFail = true
+			w.admit(inc1, op, false)
+			w.mayFail = false
+			inc1.kv.armPutFailure(shelf, 0)
+			w.kind = "fault-put-save"
+			if w.refused {
+				x.Class("putfault:refused+re-offered")
+				w.admit(inc1, op, false)
+			} else {
+				x.Class("putfault:admitted")
+			}
+			x.Classf("putfault:subscriber=%d/%d", pair.Sub, len(w.c.Subs))
+			if op.K == "pay" {
+				x.Class("putfault:at-WritePayload")
+			} else {
+				x.Class("putfault:at-Add")
+			}
+			w.waitQuiet("after put fault", nil)
+			if len(x.Violations()) > 0 {
+				return
+			}
+			w.checkFixedPoint(inc1)
+			if len(x.Violations()) > 0 {
+				return
+			}
+			w.stopNow(inc1)
+			break
+		}
 		w.mu.Lock()
 		w.faultPair = &pair
 		switch p.Fault {
@@ -1007,6 +1112,9 @@ func (w *c14World) execute(p c14StopPlan) {
 			w.stopNow(inc1)
 		}
 	}
+	if len(x.Violations()) > 0 {
+		return
+	}
 	x.NoErr(inc1.snapErr, "snapshot")
 	w.shut(inc1, true)
 	w.mu.Lock()
@@ -1035,6 +1143,9 @@ func (w *c14World) execute(p c14StopPlan) {
 		w.exec(inc2, ops[i])
 	}
 	w.waitQuiet("second incarnation", nil)
+	if len(x.Violations()) > 0 {
+		return
+	}
 	w.checkFixedPoint(inc2)
 	w.shut(inc2, true)
 
@@ -1042,6 +1153,9 @@ func (w *c14World) execute(p c14StopPlan) {
 	inc3 := w.open(dir2)
 	w.run(inc3)
 	w.waitQuiet("third incarnation", nil)
+	if len(x.Violations()) > 0 {
+		return
+	}
 	w.checkFixedPoint(inc3)
 	w.shut(inc3, true)
 
@@ -1328,6 +1442,25 @@ func (w *c14World) classify(p c14StopPlan, stopSeq int) {
 	if pendingAtStop > 0 {
 		x.Class("jobs-pending-at-stop")
 	}
+	bucket := func(r int) string {
+		switch {
+		case r <= 1 || r == 18 || r == 19:
+			return fmt.Sprint(r)
+		case r >= maxRetries:
+			return ">=20"
+		}
+		return "2..17"
+	}
+	for _, jobs := range inc2.start {
+		for _, j := range jobs {
+			x.Class("restart-finds-job-with-recorded-attempts=" + bucket(j.Retries))
+		}
+	}
+	if p.Kind == "receiver" && p.Trig != nil {
+		if j, ok := inc2.start[p.Trig.pair.Sub][c14Ev{p.Trig.pair.Tx, p.Trig.pair.Type}]; ok {
+			x.Class("in-receiver-stop-at-recorded-attempts=" + bucket(j.Retries))
+		}
+	}
 	if visibleAtStop > 0 {
 		x.Class("job-10..19-retries-at-stop")
 	}
@@ -1459,11 +1592,25 @@ func c14Plans(c c14Case, txs []vdTx) []c14StopPlan {
 	for _, s := range c.Stops {
 		idx := int(s.Pos) % len(adms)
 		a := adms[idx]
-		if s.Call%4 != 0 { // three out of four stops move on to the next interesting op, if there is one
-			for k := 0; k < len(adms); k++ {
-				if cand := adms[(idx+k)%len(adms)]; interesting(cand) {
-					a = cand
-					break
+		// deep: the op has a persistent pair that is still being called at call s.Call (so the in-receiver stop can strike
+		// there: a restart with s.Call-1 recorded attempts)
+		deep := func(a admitting) bool {
+			for _, e := range a.evs {
+				for _, sub := range c.Subs {
+					if sub.Persistent && sub.selects(e.Type, txs[e.Tx].Tx) && sub.beh(e.Tx).calls() >= min(s.Call, maxRetries) {
+						return true
+					}
+				}
+			}
+			return false
+		}
+		if s.Call%4 != 0 || s.Call >= 17 { // most stops move on to the next op that suits them, if there is one
+			found := false
+			for _, want := range []func(admitting) bool{deep, interesting} {
+				for k := 0; k < len(adms) && !found; k++ {
+					if cand := adms[(idx+k)%len(adms)]; want(cand) {
+						a, found = cand, true
+					}
 				}
 			}
 		}
@@ -1479,11 +1626,7 @@ func c14Plans(c c14Case, txs []vdTx) []c14StopPlan {
 				if !sub.Persistent || !sub.selects(e.Type, txs[e.Tx].Tx) {
 					continue
 				}
-				b := sub.beh(e.Tx)
-				last := b.Fail + b.Inc + 1 // first call answered with End
-				if last > maxRetries {
-					last = maxRetries
-				}
+				last := sub.beh(e.Tx).calls()
 				want := []int{1, last, s.Call}
 				did := map[int]bool{}
 				for _, n := range want {
@@ -1508,8 +1651,8 @@ func c14Plans(c c14Case, txs []vdTx) []c14StopPlan {
 				plans = append(plans,
 					c14StopPlan{Kind: "fault", Pos: a.pos, Fault: "read-first", Trig: &c14Trig{pair: pair, call: 1}},
 					c14StopPlan{Kind: "fault", Pos: a.pos, Fault: "write-first", Trig: &c14Trig{pair: pair, call: 1}})
-				b := sub.beh(e.Tx)
-				if last := min(b.Fail+b.Inc+1, maxRetries); last >= 2 {
+				plans = append(plans, c14StopPlan{Kind: "fault", Pos: a.pos, Fault: "put-save", PutN: s.PutN, Trig: &c14Trig{pair: pair, call: 1}})
+				if last := sub.beh(e.Tx).calls(); last >= 2 {
 					n := 2 + s.Call%(last-1)
 					mode := "write-retry"
 					if s.Call%2 == 0 {
@@ -1547,6 +1690,8 @@ func c14Run(x *h.Ctx, c c14Case) {
 		w := c14NewWorld(x, c, txs, res)
 		w.execute(p)
 		w.cleanup()
+		h.Count("C14", x.Unit, "ms_"+p.Kind+p.Fault, int(time.Since(w.t0).Milliseconds()))
+		h.Count("C14", x.Unit, "runs_"+p.Kind+p.Fault, 1)
 		if len(x.Violations()) > 0 {
 			return
 		}
